@@ -772,11 +772,10 @@ class Router:
         # forwarding-algorithm packet assembly, so both AREA_FORWARDING and
         # NON_AREA_FORWARDING branches share the same signed bytes.
         sec_payload: bytes | None = None
-        if request.security_profile == SecurityProfile.DECENTRALIZED_ENVIRONMENTAL_NOTIFICATION_MESSAGE:
+        if self.mib.itsGnSecurity == GnSecurity.ENABLED:
             if self.sign_service is None:
-                raise NotImplementedError(
-                    "DENM security profile requires a SignService"
-                )
+                raise ValueError(
+                    "MIB requires security but no SignService provided to Router")
             tbs_payload = (
                 common_header.encode_to_bytes()
                 + geo_broadcast_extended_header.encode()
@@ -794,8 +793,11 @@ class Router:
                     "elevation": 0xF000,  # Uint16 unavailable per IEEE 1609.2
                 },
             )
-            sign_confirm: SNSIGNConfirm = self.sign_service.sign_denm(
-                sign_request)
+            if request.security_profile == SecurityProfile.DECENTRALIZED_ENVIRONMENTAL_NOTIFICATION_MESSAGE:
+                sign_confirm: SNSIGNConfirm = self.sign_service.sign_denm(
+                    sign_request)
+            else:
+                sign_confirm = self.sign_service.sign_request(sign_request)
             basic_header = basic_header.set_nh(BasicNH.SECURED_PACKET)
             sec_payload = sign_confirm.sec_message
         # 2) if no neighbour exists, i.e. the LocT does not contain a LocTE with the IS_NEIGHBOUR flag set to TRUE,
